@@ -71,7 +71,7 @@ BUILT = {
   text='About 90 k mutants per quick run (2 M thorough) are fed to `chibicc -cc1` directly; each must yield assembly that `as` accepts or exit status 1 with a `file:line:` diagnostic inside the input; signals, assertions, internal errors, other statuses, silence and confirmed hangs are violations. All 97 per-site triggers and a set of valid programs are also run unmutated (valid ones must be accepted).',
   note='neighbourhood-of-seeds exploration, not all byte strings; inline asm excluded; D34 (huge aggregate arrays with initializers exhaust memory) recorded and excluded by input shape'),
  'C17': dict(
-  technique='model-based stateful property testing (Hypothesis-generated put/get/delete/churn histories over hash-colliding keys, replayed by a native driver built from the tree against a flat-array reference after every step) + coverage-guided libFuzzer (ASan/UBSan) with the oracle in the target + end-to-end #define/#undef/-D/-U histories vs a dict model and gcc/clang',
+  technique='model-based stateful property testing (Hypothesis-generated put/get/delete/churn histories over hash-colliding keys, replayed by a native driver built from the tree against a flat-array reference after every step) + coverage-guided libFuzzer (ASan/UBSan) with the oracle in the target + end-to-end #define/#undef/-D/-U histories vs a dict model and gcc/clang + generated block-scope / prototype-scope declaration histories over colliding identifiers vs a stack-of-dicts model',
   level='exploration',
   text='hashmap.c of the tree under test is exercised in-process with histories over 60 keys that collide at every capacity reached (put after delete in one collision group, rehash with live tombstones, churn bursts of 700 fresh keys, non-terminated keys), all keys re-queried after every step; the same command language is fuzzed coverage-guided; macro-table histories (incl. redefinition of the predefined dynamic macros) are checked end to end.',
   note='the reference dictionaries are trivially correct; libFuzzer seeds pin a campaign only approximately (the crash artefact is the replay unit)',
